@@ -259,6 +259,13 @@ FIXED = [
     ({'ea/__init__.py': '', 'ea/consts.py': '__all__ = []\ndef helper(): pass\nclass Konst: pass\n', 'ea/plain.py': 'def plain_func(): pass\n',
       'ea/user.py': 'from ea.plain import plain_func as helper\nfrom ea.consts import *\n'},
      ['ea', 'ea.consts', 'ea.plain', 'ea.user']),
+    # two roots, the name of the first a prefix of the name of the second; the second re-exports a class of its private module
+    ({'qlib/__init__.py': 'from ._qb import Thing\n__all__ = ["Thing"]\n', 'qlib/_qb.py': 'class Thing:\n    def tm(self): pass\n',
+      'qlib/quser.py': 'from qlib._qb import Thing as DirectThing\nimport qlib._qb as tmod\n',
+      'qlibext/__init__.py': 'from ._qi import Widget\n__all__ = ["Widget"]\n', 'qlibext/_qi.py': 'class Widget:\n    def wm(self): pass\nclass Gadget:\n    pass\n',
+      'qlibext/qclient.py': 'from qlibext._qi import Widget\nfrom qlibext._qi import Widget as W2\nimport qlibext._qi as wmod\nfrom qlib._qb import Thing as OtherRootThing\n'
+                            'class Scope:\n    from qlibext._qi import Widget as InClass\n'},
+     ['qlib._qb', 'qlib', 'qlib.quser', 'qlibext._qi', 'qlibext', 'qlibext.qclient']),
 ]
 
 
